@@ -256,6 +256,26 @@ struct GDoc {
     #[garde(range(min = 5))]
     z: i64,
 }
+#[derive(Clone, Debug, Deserialize, garde::Validate)]
+struct GEntity {
+    #[garde(length(min = 3))]
+    name: String,
+    #[garde(length(min = 3))]
+    platform: String,
+}
+/// a YAML sequence turned into a map keyed by ids derived from the elements (the validation path then holds a KEY
+/// where the recorder holds an INDEX: the last pass of PathMap::search)
+fn seq_to_map<'de, D: serde::Deserializer<'de>>(de: D) -> Result<std::collections::BTreeMap<String, GEntity>, D::Error> {
+    let items = Vec::<GEntity>::deserialize(de)?;
+    Ok(items.into_iter().map(|e| (format!("id-{}", e.name), e)).collect())
+}
+#[derive(Debug, Deserialize, garde::Validate)]
+struct GSeqMap {
+    #[serde(deserialize_with = "seq_to_map")]
+    #[garde(dive)]
+    entities: std::collections::BTreeMap<String, GEntity>,
+}
+const DOC_SEQMAP: &str = "entities:\n- name: alpha\n  platform: linux\n- name: bravo\n  platform: ex\n- name: charlie\n  platform: darwin\n- name: delta\n  platform: freebsd\n- name: echo\n  platform: plan9\n";
 #[derive(Serialize)]
 struct SLeaf {
     v: i64,
@@ -504,6 +524,8 @@ const DOC_NESTED: &str = "x: &a {v: 1}\nn: nonzero\ny: *a\n";
 const DOC_NZ: &str = "a: 1\nk:   0\n";
 /// where the ratio refusal of the `ratio` call is reported (end of the stream)
 const RATIO_LOC: u64 = (122 << 20) | 1;
+/// the five candidates of the key-to-index pass are ambiguous: no location
+const SEQMAP_LOC: u64 = 0;
 const DOC_PANIC: &str = "x: &a {v: 1}\ny: &b {v: 2}\n";
 
 fn shared_text(s: &Shared) -> String {
@@ -703,6 +725,11 @@ fn alphabet() -> &'static [CallDef] {
                 e(l(2, 1), l(2, 4), vec![strong(0, Some(1), vec![leaf(l(2, 4), l(1, 8), l(2, 4))])]),
                 e(l(3, 1), l(3, 4), vec![]),
             ])]), A::Err(l(3, 4))],
+        },
+        CallDef {
+            name: "valid_seqmap", what: "from_str_valid (garde) of a sequence turned into an id-keyed map, rule failing in one of five elements: the path lookup runs over a hash map — whatever it answers must not depend on the map's hash seed (compared with a fresh thread at every occurrence)", base: true,
+            run: || finish(catch(|| serde_saphyr::from_str_valid::<GSeqMap>(DOC_SEQMAP)), |d| format!("{}", d.entities.len()), |_| vec![]),
+            script: || vec![A::Scope(false, vec![]), A::Err(SEQMAP_LOC)],
         },
         CallDef {
             name: "ser", what: "to_string of a value with shared Rc and Arc pointers (no thread-local involved)", base: true,
@@ -943,7 +970,7 @@ fn generate(a: &Args) -> i32 {
         "distinct_nontrivial": nt,
         "calls_run": calls_run,
         "alphabet": alpha.iter().map(|c| format!("{}: {}", c.name, c.what)).collect::<Vec<_>>(),
-        "rule": format!("all sequences of length 1..{max_len} over an alphabet of {n} top-level calls (success with Rc/Arc/recursive anchors, failure inside an anchor-wrapper context, failure midway through an anchored sequence, budget breach, budget-report callback with every counter in the result, alias/anchor-ratio refusal, static Serde errors with and without a guard — after the last entry of a mapping (key location), during a key, in a mapping value (value guard) —, leaked map access, panicking visitor, abandoned read iterator, from_multiple, from_str_valid, to_string with shared pointers, a type whose Deserialize impl performs a nested parse) plus {random_long} random sequences of length 5..12 (seeded); every sequence on its own fresh thread; one differential case per sequence (model predicts per call: outcome, sharing pattern, thread-local state at every probe point and after the call); oracle: each call's full textual result = result on a fresh thread, probes clean after each call; nested sweep: every base call nested at 4 host positions (struct field, inside an RcAnchor context, sequence elements, inside an RcRecursive node). Non-trivial = sequences of length >= 2."),
+        "rule": format!("all sequences of length 1..{max_len} over an alphabet of {n} top-level calls (success with Rc/Arc/recursive anchors, failure inside an anchor-wrapper context, failure midway through an anchored sequence, budget breach, budget-report callback with every counter in the result, alias/anchor-ratio refusal, static Serde errors with and without a guard — after the last entry of a mapping (key location), during a key, in a mapping value (value guard) —, leaked map access, panicking visitor, abandoned read iterator, from_multiple, from_str_valid (also with a key-to-index path lookup over the hash map), to_string with shared pointers, a type whose Deserialize impl performs a nested parse) plus {random_long} random sequences of length 5..12 (seeded); every sequence on its own fresh thread; one differential case per sequence (model predicts per call: outcome, sharing pattern, thread-local state at every probe point and after the call); oracle: each call's full textual result = result on a fresh thread, probes clean after each call; nested sweep: every base call nested at 4 host positions (struct field, inside an RcAnchor context, sequence elements, inside an RcRecursive node). Non-trivial = sequences of length >= 2."),
     }));
     std::fs::write(format!("{}/calls.oracle.jsonl", a.out), oracle.join("\n") + if oracle.is_empty() { "" } else { "\n" }).unwrap();
     0
